@@ -259,6 +259,53 @@ theorem flat_perm_invariant {ts : Spec} (hwf : ts.WF) (ms₁ ms₂ : List PMsg) 
     obtain ⟨hs, hc⟩ := hsame u T₁ T₂ hT₁ hT₂
     exact ⟨same_of_inv i₁ i₂ hs, by rw [i₁.complete_eq, i₂.complete_eq, hc]⟩
 
+theorem lookup_filter_ne {α : Type} (l : List (String × α)) (u : String) :
+    (l.filter (fun e => e.1 != u)).lookup u = none := by
+  induction l with
+  | nil => rfl
+  | cons e es ih =>
+    simp only [List.filter_cons]
+    by_cases h : e.1 = u
+    · simp [h, ih]
+    · have h1 : (e.1 != u) = true := by simpa using h
+      have h2 : (u == e.1) = false := by simpa using (fun hh : u = e.1 => h hh.symm)
+      simp only [h1, if_true]
+      obtain ⟨k, v⟩ := e
+      simp only [List.lookup_cons] at ih ⊢
+      simp only [] at h2
+      rw [h2]; exact ih
+
+/-- **A task that was handed back is gone from the parser**: whatever arrives later under its uuid (a background task that
+inherited the context logs after the root action ended) starts a new `Task` and is yielded with it - by both parsers. -/
+theorem handed_back_is_forgotten {p p' : Parser} {fp fp' : FParser} {m : PMsg} {done : List (String × Task)}
+    {fdone : List (String × FTask)} (h : p.add m = .ok (done, p')) (hf : fp.add m = .ok (fdone, fp'))
+    (hd : done ≠ []) (hfd : fdone ≠ []) : p'.lookup m.uuid = none ∧ fp'.lookup m.uuid = none := by
+  constructor
+  · unfold Parser.add at h
+    simp only [bind, Except.bind] at h
+    cases ha : ((p.lookup m.uuid).getD {}).add m with
+    | error e => simp [ha] at h
+    | ok t =>
+      simp only [ha] at h
+      by_cases hc : t.isComplete = true
+      · simp only [hc, if_true, pure, Except.pure] at h
+        cases h
+        exact lookup_filter_ne p m.uuid
+      · simp only [hc, Bool.false_eq_true, if_false, pure, Except.pure] at h
+        cases h; exact absurd rfl hd
+  · unfold FParser.add at hf
+    simp only [bind, Except.bind] at hf
+    cases ha : ((fp.lookup m.uuid).getD {}).add m with
+    | error e => simp [ha] at hf
+    | ok t =>
+      simp only [ha] at hf
+      by_cases hc : t.isComplete = true
+      · simp only [hc, if_true, pure, Except.pure] at hf
+        cases hf
+        exact lookup_filter_ne fp m.uuid
+      · simp only [hc, Bool.false_eq_true, if_false, pure, Except.pure] at hf
+        cases hf; exact absurd rfl hfd
+
 /-! Non-vacuity: a concrete out-of-order stream (end of the inner action first), both algorithms run by the kernel. -/
 def exTree : Tree := .node "outer" 10 19 true (.cons (.leaf 11) (.cons (.node "inner" 12 14 false (.cons (.leaf 13) .nil)) .nil))
 def exStream : List PMsg := (Tree.msgs "u" exTree []).reverse
